@@ -4,7 +4,8 @@ import json, os, sys
 V = os.path.dirname(os.path.abspath(__file__))
 sys.path.insert(0, os.path.join(V, "checklib"))
 from props import PROPS
-from manifest_meta import META, NOT_APPLICABLE, HOOK_COMMITS, NOTES
+from props import META
+from manifest_meta import NOT_APPLICABLE, HOOK_COMMITS, NOTES
 
 checks = []
 for pid in sorted(PROPS):
